@@ -274,6 +274,8 @@ def _pastifier_fresh(ix, rep):
 
 
 def check(ix, rep):
+    from sa.rules import round11 as _r11
+    rep.floor('removals from the sub-specification table', _r11.check_subspec_table_writers(ix, rep), 1)
     _visit_expr_id(ix, rep)
     _visit_assertion(ix, rep)
     from sa.rules import store as _st9
